@@ -126,7 +126,9 @@ def run_history(rng, counters, digests, samples, violations, known, layered, nop
             f = ls.step(op, exp)
             trace = list(C.EVENTS)
             if f and f["kind"] == "exception" and kf.is_open("KF1", ID) and op[0] in ("set", "iop") and \
-                    kf.kf1_premature(ls.runner.mgr, f["run_order"], hg.shadow, ls.runner, op[1])[0]:
+                    (kf.kf1_premature(ls.runner.mgr, f["run_order"], hg.shadow, ls.runner, op[1])[0]
+                     or kf.kf1(ls.runner.mgr, f["run_order"], hg.shadow, ls.runner)[0]):
+                # (second form: the inversion lies among the tasks that already ran, a consumer of the stale result raised)
                 known.append(kf.known("KF1", "a task evaluated before its producer raised on the stale input"))
                 return True
             if f and f["kind"] == "exception" and hg.shadow.stale and f["exc_type"] != "KeyError":
